@@ -13,6 +13,7 @@ def main():
     ap.add_argument("--selftest", action="store_true", help="vacuity twin: assertion := false must be reported")
     a = ap.parse_args()
     seed = int(os.environ.get("VERIF_SEED", "0"))
+    os.environ["VERIF_TIER_NOW"] = a.tier
     mod = importlib.import_module("checks." + a.prop)
     t0 = time.time()
     code = mod.main(a.tier, seed, t0, selftest=a.selftest) if a.selftest else mod.main(a.tier, seed, t0)
